@@ -1,4 +1,4 @@
-//! Operations for C06 (see ops.rs). Fill in: return Some(outcome) for the ops this module owns.
+//! PlainTime and Instant operations (C06, C07).
 use crate::js::{self, big, int};
 use crate::ops::{utc, FS};
 use crate::proj::*;
@@ -7,8 +7,23 @@ use temporal_rs::options::*;
 use temporal_rs::*;
 
 pub fn exec(op: &str, a: &Value) -> Option<Value> {
-    let _ = a;
-    match op {
-        _ => None,
-    }
+    Some(match op {
+        "PlainTime.add" => run(|| arg_time(&a["recv"])?.add(&arg_duration(&a["dur"])?), p_time),
+        "PlainTime.subtract" => run(|| arg_time(&a["recv"])?.subtract(&arg_duration(&a["dur"])?), p_time),
+        "PlainTime.until" => run(|| arg_time(&a["recv"])?.until(&arg_time(&a["other"])?, arg_settings(&a["st"])?), p_duration),
+        "PlainTime.since" => run(|| arg_time(&a["recv"])?.since(&arg_time(&a["other"])?, arg_settings(&a["st"])?), p_duration),
+        "PlainTime.round" => run(|| {
+            let st = &a["st"];
+            arg_time(&a["recv"])?.round(arg_unit(js::s(st, "smallest")), st.get("inc").and_then(|x| x.as_i64()).map(|x| x as f64), js::opt_s(st, "mode").map(arg_mode))
+        }, p_time),
+        "Instant.new" => run(|| arg_instant(&a["ns"]), p_instant),
+        "Instant.add" => run(|| arg_instant(&a["recv"])?.add(arg_duration(&a["dur"])?), p_instant),
+        "Instant.subtract" => run(|| arg_instant(&a["recv"])?.subtract(arg_duration(&a["dur"])?), p_instant),
+        "Instant.until" => run(|| arg_instant(&a["recv"])?.until(&arg_instant(&a["other"])?, arg_settings(&a["st"])?), p_duration),
+        "Instant.since" => run(|| arg_instant(&a["recv"])?.since(&arg_instant(&a["other"])?, arg_settings(&a["st"])?), p_duration),
+        "Instant.round" => run(|| arg_instant(&a["recv"])?.round(arg_rounding(&a["st"])?), p_instant),
+        "Instant.epochMs" => run(|| Ok(arg_instant(&a["recv"])?.epoch_milliseconds()), |ms| big(*ms as i128)),
+        "Instant.fromEpochMs" => run(|| { let ms = num(&a["ms"]); Instant::from_epoch_milliseconds(i64::try_from(ms).expect("ms fits i64")) }, p_instant),
+        _ => return None,
+    })
 }
